@@ -51,6 +51,8 @@ class SimAlignmentFile(REAL_PYSAM.AlignmentFile):
         if not cfg:
             return REAL_PYSAM.AlignmentFile.fetch(self, *a, **k)
         if cfg.get("hide_index"):
+            # full scan from the first record (indelpost may have moved the file position)
+            REAL_PYSAM.AlignmentFile.reset(self)
             it = REAL_PYSAM.AlignmentFile.fetch(self, until_eof=True)
         else:
             it = REAL_PYSAM.AlignmentFile.fetch(self, *a, **k)
